@@ -14,7 +14,8 @@
 From Coq Require Import String Ascii List Bool Arith ZArith.
 Import ListNotations.
 Require Import PyBase PyStr Lex Symbols ParseEq ParseModel GLex GNorm Graph GraphFacts GraphTheorems GraphEvalFacts GraphEvalWf GraphExamples.
-Require Import Denorm GraphParseFacts GraphParseExamples LayoutExamples.
+Require Import Denorm GraphParseFacts GraphScriptFacts GraphParseExamples LayoutExamples.
+Require Import Split Merge ParseContribFacts.
 Require Import Solver Eval EvalFacts.
 Open Scope string_scope.
 
@@ -209,6 +210,39 @@ Theorem C20_reparsed_graph_satisfiable :
     end.
 Proof. exact ex_reparse_hyps. Qed.
 Print Assumptions C20_reparsed_graph_satisfiable.
+
+(* ---- scripts of several statements, end to end inside the model: splitter -> parse_equation per statement -> cross-equation
+   merge -> symbols_to_graph ---- *)
+(* the merge neither loses nor invents an equation (per-statement symbols all named and tidy, as parse_equation builds them) *)
+Theorem C20_merge_keeps_equations : forall (by_eq : list (list symbol)) (out : list symbol),
+  (forall s, In s (concat by_eq) -> tidy s /\ sname s <> None) ->
+  merge_symbols by_eq = Ret out ->
+  forall e, In e (equations_of out) <-> In e (equations_of (concat by_eq)).
+Proof. exact merge_equations. Qed.
+Print Assumptions C20_merge_keeps_equations.
+
+(* for every script that the splitter cuts into the statements  denorm_text lay q_1 … denorm_text lay q_n  (each q_i a plain
+   NAME[k] = rhs under dq_ok and neq_wf whose NAME is not used as a function) and that parse_model accepts, the graph of the
+   parsed symbols has exactly the edges of the q_i: x -> n iff some q_i has n on its left and x on its right.  Statement order,
+   names used before their definition and repeated statements do not matter *)
+Theorem C20_script_graph_edges : forall (lay : layout) (qs : list neq) (s : string) (syms : list symbol),
+  Forall (stmt_ok_q lay) qs ->
+  split_M s = (map (denorm_text lay) qs, None) ->
+  parse_model_nocheck s = POk syms ->
+  exists g, symbols_to_graph_M syms = Ret g /\
+    forall x n, is_edge g x n = true <-> exists q, In q qs /\ In n (nids (nlhs q)) /\ In x (nids (nrhs q)).
+Proof. exact script_graph_edges. Qed.
+Print Assumptions C20_script_graph_edges.
+Theorem C20_script_graph_satisfiable :
+  Forall (stmt_ok_q canon) [ex_sq1; ex_sq2] /\
+  split_M ex_script = (map (denorm_text canon) [ex_sq1; ex_sq2], None) /\
+  exists syms, parse_model_nocheck ex_script = POk syms /\
+    match symbols_to_graph_M syms with
+    | Ret g => in_edges g "Y[t]" = ["X[t-1]"; "Z[t]"; "a[t]"] /\ in_edges g "Z[t]" = ["Y[t-1]"]
+    | Raise _ => False
+    end.
+Proof. exact ex_script_hyps. Qed.
+Print Assumptions C20_script_graph_satisfiable.
 
 (* ---- hypotheses are satisfiable; what does not hold of the code as it is ---- *)
 Theorem C20_hypotheses_satisfiable :
